@@ -21,7 +21,7 @@ import gen_c08 as G
 
 PROP = "C09"
 RULE = ("get_multiplier_sequence: every subset of {1..10} of size <=4 (quick) / every subset of {1..12} (thorough) plus seeded random subsets of 1..24 (shuffled, with repeats) "
-        "x bases in {None, 1-element, 2-element sets over {1,2,3,4,6}}; preferred_sequence: start 1..12 x stop 0..250 x both styles; "
+        "x bases in {None, 1-element, 2-element sets over {1,2,3,4,6}, and {2,9},{4,9},{2,3,5},{4,6,9},{6,10,15},{8,5}}; preferred_sequence: start 1..12 x stop 0..250 x both styles; "
         "zoomify_cooler: a fixed-bin base x subsets of {1,2,3,4,6,8,12}*base as targets in shuffled order (all 127 in the thorough tier, 40 random + corpus in the quick tier), "
         "two-base runs incl. D3/D17 shapes (a base that is a multiple of another base, with its own data and a `weight` bin column), non-derivable targets (refusal), a variable-bin base (resolution 1), chunksize in {1,7,1000}, nproc=2 on two; "
         "CLI -r spellings 4DN,10N,10B,10b,10n,N,B,default, comma lists with blanks; non-trivial = at least one derived level whose predecessor is itself derived, or >1 base, or a refusal; distinct by input hash")
@@ -89,6 +89,8 @@ def part_multseq(ctx):
         s_ = [rng.randint(1, 24) for _ in range(n)]
         sets.append(s_)
     base_cfgs = [None] + [[b] for b in (1, 2, 3, 4, 6)] + [list(p) for p in itertools.combinations((1, 2, 3, 4, 6), 2)]
+    # bases that sit high in the sorted sequence (the nearest smaller entry of a target is itself a base)
+    base_cfgs += [[2, 9], [4, 9], [2, 3, 5], [4, 6, 9], [6, 10, 15], [8, 5]]
     cases = []
     for s_ in sets:
         cfgs = base_cfgs if (thorough or len(s_) <= 3) else rng.sample(base_cfgs, 5)
@@ -98,7 +100,8 @@ def part_multseq(ctx):
             cases.append((order, b))
     # corpus: D17 (bases {2,4}), mixed predecessors, duplicates, base larger than a target
     cases += [([8], [2, 4]), ([2, 3, 6], None), ([6, 2, 3], [1]), ([4, 8, 16, 32], [4]), ([12, 12, 6], [6, 6]), ([2, 10], [4]),
-              ([5, 10, 25, 50, 100], [5]), ([6], [4, 6]), ([9, 6, 18], [3, 2])]
+              ([5, 10, 25, 50, 100], [5]), ([6], [4, 6]), ([9, 6, 18], [3, 2]), ([4, 27], [2, 9]), ([25], [2, 3, 5]), ([8, 27, 16], [4, 9]),
+              ([12, 30, 45], [6, 10, 15]), ([4, 6, 27], [2, 3, 9])]
     # model: families per Eval
     per = 40
     exprs = []
@@ -262,20 +265,29 @@ def zoom_oracle(case, st, res, srcs):
     if not res["multires"] or res["format"] != "HDF5::MCOOL":
         return {"what": "file not recognised as multi-resolution", "multires": res["multires"], "format": res["format"]}
     src_of = {}
-    for base, so in zip(bases, srcs):
-        src_of[base_res(base)] = so
+    for base, so in zip(bases, srcs):      # several sources may share a bin size: a copy of any of them is accepted
+        src_of.setdefault(base_res(base), []).append(so)
+    keys = ("bins", "pixels", "nnz", "sum", "chromsizes", "names", "binsize", "mode", "b1off", "choff", "bincols", "weight", "bintype")
     for r in want:
         lv = res["levels"][f"/resolutions/{r}"]
         if r in bres:
-            so = src_of[r]
-            for key in ("bins", "pixels", "nnz", "sum", "chromsizes", "names", "binsize", "mode", "b1off", "choff", "bincols", "weight", "bintype"):
-                if lv[key] != so[key]:
-                    return {"what": f"base level {r} is not a faithful copy of its source ({key})", "got": lv[key] if not isinstance(lv[key], list) else lv[key][:20],
-                            "expected": so[key] if not isinstance(so[key], list) else so[key][:20]}
+            diffs = []
+            for so in src_of[r]:
+                bad_keys = [k_ for k_ in keys if lv[k_] != so[k_]]
+                if not bad_keys:
+                    diffs = None
+                    break
+                diffs.append(bad_keys)
+            if diffs is not None:
+                k0 = diffs[-1][0]
+                so = src_of[r][-1]
+                return {"what": f"base level {r} is not a faithful copy of its source ({k0})", "got": lv[k0] if not isinstance(lv[k0], list) else lv[k0][:20],
+                        "expected": so[k0] if not isinstance(so[k0], list) else so[k0][:20]}
         else:
             ok = False
             cands = []
-            for b, base in bres.items():
+            for base in bases:
+                b = base_res(base)
                 if r % b == 0:
                     blocks = [[tuple(x) for x in blk] for blk in base["blocks"]]
                     ebins, epx = G.oracle_coarsen(blocks, base["pixels"], r // b)
@@ -357,6 +369,12 @@ def part_zoom(ctx):
     bv = {"res": 1, "blocks": [[list(x) for x in blk] for blk in vblocks], "pixels": [list(p) for p in G.random_pixels(rng, nv, True, "dense")], "weight": True}
     for res in ([2, 4], [2, 3, 6], [1, 5], [6]):
         cases.append({"fn": "zoomify_cooler", "symmetric": True, "bases": [bv], "resolutions": res, "chunksize": rng.choice([1, 7, 1000]), "note": "variable-bin base (resolution 1)"})
+    # D1 shape: longer last bins, the table is VARIABLE (resolution 1) although the non-last widths agree
+    dblocks = blocks_from_widths([[10, 10, 15], [10, 23], [10, 10]])
+    nd = sum(len(x) for x in dblocks)
+    bd = {"res": 1, "blocks": [[list(x) for x in blk] for blk in dblocks], "pixels": [list(p) for p in G.random_pixels(rng, nd, True, "dense")], "weight": False}
+    for res in ([2], [3, 2]):
+        cases.append({"fn": "zoomify_cooler", "symmetric": True, "bases": [bd], "resolutions": res, "chunksize": rng.choice([1, 7, 1000]), "note": "D1: variable base with longer last bins"})
     # nproc = 2
     for ms in ([2, 4, 8], [2, 3, 6, 12]):
         cases.append({"fn": "zoomify_cooler", "symmetric": True, "bases": [baseA], "resolutions": [10 * m for m in ms], "chunksize": 1, "nproc": 2, "note": "nproc=2"})
